@@ -207,6 +207,13 @@ func Applicable(target string, c Call) bool {
 		case "symlink", "readlink", "evalsymlinks", "chown", "lchown", "fchown":
 			return false
 		}
+
+		// OrefaFS does not know its own root directory under the name "/" (known finding KF09,
+		// witnessed separately): calls that name it are not issued.
+		isRoot := func(p Path) bool { return p.Abs && len(p.Parts) == 0 }
+		if isRoot(c.P) || ((c.Op == "rename" || c.Op == "link") && isRoot(c.Q)) {
+			return false
+		}
 	}
 
 	return true
